@@ -19,7 +19,9 @@ End-to-end homogeneity of solved sequences is validated by sampling only (partia
 The relation is between two EXECUTIONS: a parameter study (several near-identical grooves built one after the other), a
 second solve on used objects and the values readable before solve are executions too, and are compared member by member.
 Besides the formulas, T checks what it silently assumes of the files it reads (driver/translate/c11_dims.structure_items):
-no wrapping decorators, no module-level state, every module-level number a declared quantity; accepted inhomogeneous items
+no wrapping decorators other than pass-through wrappers (the decorator's definition is read: checks that can only raise,
+then `return func(*args, **kwargs)`, no state, every comparison of the wrapper a certified decision), no module-level
+state, every module-level number a declared quantity; counts (`sum` of truth values, `len`) are pure numbers; accepted inhomogeneous items
 are pinned WITH their translated term (EXPECTED_TERMS, theorem C11.inhomogeneous_terms_pinned).
 """
 import math
@@ -70,16 +72,24 @@ EXPECTED_INHOMOGENEOUS = {
     "grooves/generic_elongation.py:GenericElongationGroove._enumerate_contour_points:isclose#3": "junction test z4~z5",
     "grooves/generic_elongation.py:GenericElongationGroove._enumerate_contour_points:isclose#4": "junction test z5~z6",
     "grooves/generic_elongation.py:GenericElongationGroove._enumerate_contour_points:isclose#5": "junction test z6~z7",
-    "profile/profile.py:Profile.local_height:arg:buffer#1": "absolute buffer 1e-12 around the cross-section",
-    "profile/profile.py:Profile.local_width:arg:buffer#1": "absolute buffer 1e-12 around the cross-section",
     "sequence/sequence.py:PassSequence.solve_velocities_backward:cmp#1": "absolute stop test 0.01 on velocities",
     "sequence/sequence.py:PassSequence.solve_velocities_forward:cmp#1": "absolute stop test 0.01 on velocities",
+}
+# (the chord buffers of Profile.local_width / local_height are relative since /repo 9e95dfa: certified `arg` items, required)
+# Exceptions that exist only in the source form BEFORE the repair of the listed finding `tworun-spline-face-thin-fillet` has
+# landed in /repo (twin of `C11.acceptedPendingRepair`): all three are present with the accepted value, or none is and the
+# relative face test SPLINE_FACE_KEY is a certified decision with the term SPLINE_FACE_TERM (`_spline_face_form`, twin of
+# theorem `C11.spline_face_test_form`).  To be emptied once the repair is in /repo.
+PENDING_REPAIR = {
     "grooves/spline.py:SplineGroove.__init__:isclose#1": "np.isclose(first y, 0): absolute 1e-8 (acceptance of the contour)",
     "grooves/spline.py:SplineGroove.__init__:isclose#2": "np.isclose(last y, 0): absolute 1e-8 (acceptance of the contour)",
     "grooves/spline.py:SplineGroove.__init__:isclose#3":
         "np.isclose(y, 0) strips the face runs: absolute 1e-8 - a vertex less than 1e-8 above the face is a face vertex "
         "(bites for finely sampled fillets of thin-wire grooves described in metres: see notes/C11.md, finding 2)",
 }
+EXPECTED_INHOMOGENEOUS.update(PENDING_REPAIR)
+SPLINE_FACE_KEY = "grooves/spline.py:SplineGroove.__init__:cmp#3"
+SPLINE_FACE_TERM = '(.sub (.abs (.var "contour_points")) (.mul (.dec 1 9) (.var "contour_points")))'
 # the accepted items are accepted WITH THEIR VALUE: the translated term (Lean syntax) of each; a changed literal
 # (1e-9 -> 1e-6, atol=...) keeps the key but not the term.  Also pinned by theorem C11.inhomogeneous_terms_pinned.
 _ISCLOSE0 = '(.sub (.abs (.sub (.var "%s") (.nat 0))) (.add (.dec 1 8) (.mul (.dec 1 5) (.abs (.nat 0)))))'
@@ -97,8 +107,6 @@ EXPECTED_TERMS = {
     "grooves/generic_elongation.py:GenericElongationGroove._enumerate_contour_points:isclose#3": _ISCLOSE % ("z4", "z5", "z5"),
     "grooves/generic_elongation.py:GenericElongationGroove._enumerate_contour_points:isclose#4": _ISCLOSE % ("z5", "z6", "z6"),
     "grooves/generic_elongation.py:GenericElongationGroove._enumerate_contour_points:isclose#5": _ISCLOSE % ("z6", "z7", "z7"),
-    "profile/profile.py:Profile.local_height:arg:buffer#1": "(.dec 1 12)",
-    "profile/profile.py:Profile.local_width:arg:buffer#1": "(.dec 1 12)",
     "sequence/sequence.py:PassSequence.solve_velocities_backward:cmp#1": _STOP,
     "sequence/sequence.py:PassSequence.solve_velocities_forward:cmp#1": _STOP,
     "grooves/spline.py:SplineGroove.__init__:isclose#1": _ISCLOSE0 % "contour_points",
@@ -137,7 +145,6 @@ IGNORED_DECISIONS = {
     "unit/unit.py:Unit.prev:cmp#1": "list index",
     "unit/unit.py:Unit.next:cmp#1": "list index",
     "sequence/sequence.py:PassSequence.__getitem__:cmp#1": "label comparison",
-    "profile/profile.py:Profile.from_polygon:cmp#1": "number of holes",
     "grooves/spline.py:SplineGroove.__init__:cmp#1": "rank of the coordinate array",
     "grooves/spline.py:SplineGroove.__init__:cmp#2": "shape of the coordinate array",
 }
@@ -218,18 +225,42 @@ def _report(ctx, data):
     # module-level number a declared quantity)
     for (key, src, text) in data.get("structure", []):
         ctx.tie_breaks.append(f"translator: {src}: {text}")
+    # decorators that were read and found to be pass-through wrappers (c11_dims.passthrough_wrapper)
+    ctx.notes["decorators_accepted_as_pass_through"] = data.get("decorators_accepted", [])
     ctx.notes["module_constants"] = [f"{rel}:{name} (L^{d})" for (rel, name, _, _, d) in data.get("constants", [])]
     req = _required_keys()
     if req is not None:
         have = {it.key for it in items if it.ok}
+        # `accepted:<key>`: the item is present as an accepted inhomogeneous row with the accepted value
+        have |= {"accepted:" + it.key for it in bad
+                 if it.key in EXPECTED_INHOMOGENEOUS and pyexpr.lean_expr(it.expr) == EXPECTED_TERMS.get(it.key)}
         for k in req:
-            if k not in have:
+            # `a | b`: one of the alternatives (the two source forms around a pending repair)
+            if not any(alt.strip() in have for alt in k.split(" | ")):
                 ctx.tie_breaks.append(f"translator: required item {k} is no longer translated / certified")
+    _spline_face_form(ctx, items, bad)
     kinds = {}
     for it in items:
         kinds[it.kind] = kinds.get(it.kind, 0) + 1
     ctx.notes["generated_items_by_kind"] = kinds
     ctx.notes["certified_items"] = sum(1 for it in items if it.ok)
+
+
+def _spline_face_form(ctx, items, bad):
+    """python-side twin of theorem C11.spline_face_test_form: the face test of SplineGroove is either the repaired relative
+    one (a certified decision with the pinned term, no pending exception in use) or all three absolute tests"""
+    pending = [it for it in bad if it.key in PENDING_REPAIR]
+    face = [it for it in items if it.key == SPLINE_FACE_KEY and it.ok and it.kind == "decision"]
+    repaired = bool(face) and pyexpr.lean_expr(face[0].expr) == SPLINE_FACE_TERM
+    if repaired and not pending:
+        ctx.notes["spline_face_test"] = "relative (repaired source form)"
+    elif len(pending) == len(PENDING_REPAIR) and not repaired:
+        ctx.notes["spline_face_test"] = "np.isclose(y, 0), absolute 1e-8 (source form before the repair: listed finding)"
+    else:
+        ctx.tie_breaks.append(
+            "translator: the face test of SplineGroove.__init__ is in neither of the two known forms: "
+            f"{len(pending)} of the {len(PENDING_REPAIR)} absolute tests present, relative test {SPLINE_FACE_KEY} "
+            + (f"translated as {pyexpr.lean_expr(face[0].expr)}" if face else "not found / not certified"))
 
 
 # =====================================================================================================================
